@@ -37,7 +37,8 @@ Definition gen_memory_value (n : pnode) : option (memloc * aval) :=
   match n with
   | PCsr i _ csr rs1 _ => if inst_is i ICsrrw then Some (MCsr (wv csr), ARegScalar (wv rs1) 0) else None
   | PCsrI i _ csr imm _ => if inst_is i ICsrrwi then Some (MCsr (wv csr), AConst (wv imm)) else None
-  | PStore _ rs1 rs2 imm _ => if N.eqb (wv rs1) 2 then Some (MStack (wv imm), ARegScalar (wv rs2) 0) else None
+  | PStore i rs1 rs2 imm _ =>   (* only a full word makes the slot hold the register's value *)
+      if (N.eqb (wv rs1) 2 && inst_is i ISw)%bool then Some (MStack (wv imm), ARegScalar (wv rs2) 0) else None
   | _ => None
   end.
 
@@ -85,6 +86,7 @@ Definition rule_expand_address_for_load (n : pnode) (out rin : regmap) : regmap 
   | _, _ => out
   end.
 
+Definition loads_word (n : pnode) : bool := match n with PLoad i _ _ _ _ => inst_is i ILw | _ => false end.
 Definition rule_value_from_stack (n : pnode) (out : regmap) (min : memmap) : regmap :=
   match writes_to n with
   | Some dst =>
@@ -95,7 +97,7 @@ Definition rule_value_from_stack (n : pnode) (out : regmap) (min : memmap) : reg
                   end in
       match rm_get (wv dst) out1 with
       | Some (AMemAtOrig psp off) =>
-          if N.eqb psp 2 then
+          if (N.eqb psp 2 && loads_word n)%bool then
             match mm_get (MStack off) min with Some v => rm_insert (wv dst) v out1 | None => out1 end
           else out1
       | _ => out1
@@ -199,24 +201,50 @@ Definition set_avail (c : cnode) (ri ro : regmap) (mi mo : memmap) : cnode :=
 Definition avail_transfer (c : cnode) (ri : regmap) (mi : memmap) : regmap * memmap :=
   let n := cn c in
   let c_in := set_avail c ri (rout c) mi (mout c) in
-  let o1 := rm_remove_set (kill_reg n) ri in
-  let o2 := match calls_to n with Some _ => rm_remove_set return_addr_set o1 | None => o1 end in
-  let o3 := if is_ecall n then
-              rm_remove_set (match known_ecall_signature c_in with Some (_, rets) => rets | None => program_args_set end) o2
-            else o2 in
+  let ow1 := kill_reg n in
+  let ow2 := match calls_to n with Some _ => rs_union ow1 return_addr_set | None => ow1 end in
+  let overwritten :=
+    if is_ecall n then
+      rs_union ow2 (match known_ecall_signature c_in with Some (_, rets) => rets | None => program_args_set end)
+    else ow2 in
+  (* a value expressed relative to an overwritten register no longer says anything *)
+  let is_stale (v : aval) := match v with ARegScalar r _ => rs_mem r overwritten | _ => false end in
+  let o3 := filter (fun kv => (negb (rs_mem (fst kv) overwritten) && negb (is_stale (snd kv)))%bool) ri in
   let o4 := match gen_reg_value n with Some (r, v) => rm_insert r v o3 | None => o3 end in
+  let o4 := if is_function_entry n then [] else o4 in   (* nothing of a fall-through predecessor survives *)
   let o5 := if is_handler_function_entry n then rm_extend_originals all_writable_set o4 else o4 in
   let o6 := if is_function_entry n then rm_extend_originals callee_saved_set o5 else o5 in
   let o7 := if is_program_entry n then rm_extend_originals sp_ra_set o6 else o6 in
+  let below_sp (l : memloc) :=
+    match calls_to n, l with
+    | Some _, MStack off => match stack_offset ri with Some sp => Z.ltb off sp | None => true end
+    | _, _ => false
+    end in
+  let stored_bytes :=
+    match n with
+    | PStore i rs1 _ imm _ =>
+        if N.eqb (wv rs1) 2 then
+          Some (option_map (fun sp => sp + wv imm) (stack_offset ri),
+                if inst_is i ISb then 1 else if inst_is i ISh then 2 else 4)
+        else None
+    | _ => None
+    end%Z in
+  let overlapped (l : memloc) :=
+    match l, stored_bytes with
+    | MStack off, Some (Some start, width) => (Z.ltb off (start + width) && Z.ltb start (off + 4))%bool
+    | MStack _, Some (None, _) => true
+    | _, _ => false
+    end in
+  let mi_kept := filter (fun kv => (negb (is_stale (snd kv)) && negb (below_sp (fst kv)) && negb (overlapped (fst kv)))%bool) mi in
   let m1 := if is_any_entry n then []
             else match gen_memory_value n with
                  | Some (MStack offset, v) =>
                      match stack_offset ri with
-                     | Some cur => mm_insert (MStack (wrap32 (cur + offset))) v mi
-                     | None => mi
+                     | Some cur => mm_insert (MStack (wrap32 (cur + offset))) v mi_kept
+                     | None => mi_kept
                      end
-                 | Some (loc, v) => mm_insert loc v mi
-                 | None => mi
+                 | Some (loc, v) => mm_insert loc v mi_kept
+                 | None => mi_kept
                  end in
   let r1 := rule_expand_address_for_load n o7 ri in
   let r2 := rule_value_from_stack n r1 mi in
